@@ -264,6 +264,12 @@ def generate(ctx):
                 ctx.add('parse_json_path %s' % gen.hexarg(t[:i]), kind='escape-prefix')
     for t in [b'$."abc', b'$["abc', b'$?(@.a == "abc', b'"', b'$."', b'$.a"', b'$."\\', b'$."\\u12', b'$."\\u{12', b'$?(@.a == 1e)', b'$?(@.a == .5e)']:
         ctx.add('parse_json_path %s' % gen.hexarg(t), kind='unterminated')
+    # what PathGrammar.v names as extras, and the unrooted paths that are read as expressions (C09_unrooted_forms_read_as_expressions)
+    for t in [b'5.e', b'5.ex', b'5.f', b'1e.a', b'1f.a', b'1e5.a', b'.5e', b'.5f', b'5.* .5', b'5.* .5[0]', b'5.*', b'', b'  ', b'exists(@.a)', b'exists.a',
+              b'nan == 1', b'$ == NaN', b'$ == inf', b'$ == infinity', b'+5 == 5', b'$[+1]', b'$[-1]', b'$[last+1]', b'$[last - -1]', b'$[1to2]', b'$[lastto2]',
+              b'$.a == 5.', b'$ == .5', b'$ == 007', b'$:"a"', b"$.'a'", b'-5', b'- 5', b'--5', b'-.5 ', b'$ . a', b'null.a', b'nullx.a', b'$?(@.a)',
+              b'$ == -0', b'$ == 18446744073709551616', b'$ == -9223372036854775809', b'$.a\\u0041 == 1', b'$ [ 0 , LAST - 1 TO last ] . *']:
+        ctx.add('parse_json_path %s' % gen.hexarg(t), kind='grammar-edge')
 
 
 def normalise_outcome(case, o):
